@@ -1655,7 +1655,7 @@ impl PrettyPrint for Expression<'_> {
                     }
                 }
 
-                expr.pretty_print()
+                with_parens(expr)
                     + m::operator("(")
                     + itertools::Itertools::intersperse(
                         args.iter().map(|e: &Expression| e.pretty_print()),
@@ -1713,7 +1713,7 @@ impl PrettyPrint for Expression<'_> {
             AccessField {
                 expr, field_name, ..
             } => {
-                expr.pretty_print()
+                with_parens(expr)
                     + m::operator(".")
                     + m::identifier(field_name.to_compact_string())
             }
